@@ -121,6 +121,49 @@ def main(argv):
             msg = "; ".join("%s [%s] in %s, which delegates to the new helper(s) %s that could not be inlined" % (
                 o.rule, o.key[:60], fq.split(".", 2)[-1], [h.split(".")[-1] for h in ctx.repo.opaque_callers[fq]]) for o, fq in undecided[:4])
             err = (err + "; " if err else "") + "cannot decide: " + msg
+    # the parameters of a function the rules read positionally were reordered / extended (IDE "change signature", every caller
+    # updated): a failed obligation in that function or in one of its callers is "cannot decide", not a violation
+    drifted = getattr(ctx.repo, "drifted", {}) if ctx is not None else {}
+    if new and drifted:
+        short = {q.rsplit(".", 1)[-1]: q for q in drifted}
+        keep, und = [], []
+        for o in new:
+            fq = None
+            if o.loc and ":" in o.loc:
+                rel, _, ln = o.loc.partition(":")
+                try:
+                    fq = ctx.repo.function_at(rel, int(ln))
+                except ValueError:
+                    fq = None
+            hit = None
+            if fq is not None:
+                if fq in drifted:
+                    hit = fq
+                else:
+                    fobj = ctx.repo.funcs.get(fq)
+                    if fobj is not None:
+                        import ast as _ast
+                        for c_ in _ast.walk(fobj.node):
+                            if isinstance(c_, _ast.Call):
+                                nm_ = c_.func.attr if isinstance(c_.func, _ast.Attribute) else getattr(c_.func, "id", None)
+                                if nm_ in short:
+                                    hit = short[nm_]
+                                    break
+            if hit is None:
+                # an obligation about a drifted function reported at another location names it in its key
+                for nm_, q_ in short.items():
+                    if nm_ in (o.key or ""):
+                        hit = q_
+                        break
+            if hit is not None:
+                und.append((o, hit))
+            else:
+                keep.append(o)
+        if und:
+            new = keep
+            msg = "; ".join("%s [%s]: the signature of %s changed relative to the reference tree (%s -> %s)" % (
+                o.rule, o.key[:50], q.split(".", 2)[-1], drifted[q][0], drifted[q][1]) for o, q in und[:3])
+            err = (err + "; " if err else "") + "cannot decide: " + msg
     if err is not None and not new:
         P("ANALYSIS-ERROR property=%s %s" % (pid, err))
         _error_evidence(pid, tier, seed, root, err.splitlines()[-1], evpath, t0)
